@@ -79,7 +79,8 @@ var classes = []lossClass{
 	{"bookmark", func(n *canon.Node) bool {
 		return (n.Is(canon.W, "bookmarkStart") || n.Is(canon.W, "bookmarkEnd")) && n.Parent.Is(canon.W, "body")
 	}, regexp.MustCompile(`^body-level:bookmark$`),
-		func(o ops.Op) bool { return (o.K == "headingbm" || o.K == "headingbm2") && os_(o, 1) != "" }},
+		// AddHeadingWithBookmark (headingbm2) appends a w:bookmarkEnd whatever the name is
+		func(o ops.Op) bool { return o.K == "headingbm2" || (o.K == "headingbm" && os_(o, 1) != "") }},
 	{"nestedTable", wKidOf("tbl", "tc"), regexp.MustCompile(`\.Cells\[\d+\]\.Tables($|\[)`),
 		func(o ops.Op) bool { return o.K == "nested" || o.K == "nestedh" }},
 	{"sdt", wKidOf("sdt", "body"), regexp.MustCompile(`^body-level:sdt$`),
@@ -101,7 +102,7 @@ var classes = []lossClass{
 		regexp.MustCompile(`\.CNvPicPr\.PicLocks$`),
 		func(o ops.Op) bool { return isImageOp(o.K) }},
 	{"titlePg", wKidOf("titlePg", "sectPr"), regexp.MustCompile(`\.TitlePage$`),
-		func(o ops.Op) bool { return isHF(o.K) }},
+		func(o ops.Op) bool { return o.K == "difffirst" && ob(o, 0) }},
 	{"pgNumType", wKidOf("pgNumType", "sectPr"), regexp.MustCompile(`\.PageNumType$`),
 		func(o ops.Op) bool { return isHF(o.K) }},
 }
@@ -115,11 +116,15 @@ func classOfNode(n *canon.Node) string {
 	return ""
 }
 
+// classOfPath: the innermost class wins (a lock lost inside a nested table is a picLocks loss).
 func classOfPath(p string) string {
 	for i := range classes {
-		if classes[i].Mem.MatchString(p) {
+		if classes[i].ID != "nestedTable" && classes[i].Mem.MatchString(p) {
 			return classes[i].ID
 		}
+	}
+	if classByID("nestedTable").Mem.MatchString(p) {
+		return "nestedTable"
 	}
 	return ""
 }
